@@ -44,7 +44,7 @@ type btreeRun struct {
 
 // execBTreeFG runs the foreground op list (cycled Loops times) on a fresh tree. With background=false the
 // incremental rebalancer is configured with an interval it never reaches: this is the sequential reference.
-func (w *worker) execBTreeFG(i int, th Thread, background bool, ticks *atomic.Int64, bt *structures.WritableBTreeV2, ref []string) btreeRun {
+func (w *worker) execBTreeFG(i int, th Thread, background bool, ticks *atomic.Int64, bt *structures.WritableBTreeV2) btreeRun {
 	var out btreeRun
 	loops := w.c.Loops
 	if loops < 1 {
@@ -103,7 +103,7 @@ func (w *worker) execBTreeFG(i int, th Thread, background bool, ticks *atomic.In
 				}
 				return "unknown-op"
 			})
-			w.vet(i, r, background, ref, len(out.results))
+			w.vet(i, r, background, false)
 			out.results = append(out.results, r)
 			pause(op.P)
 		}
@@ -158,12 +158,12 @@ func (w *worker) preEnable(bt *structures.WritableBTreeV2, background bool, tick
 	cfg.Budget = w.budget()
 	cfg.ProgressCallback = func(structures.RebalancingProgress) { ticks.Add(1) }
 	r := w.do(len(w.c.Threads), "pre-enable", false, func() string { return errStr(bt.EnableIncrementalRebalancing(cfg)) })
-	w.vet(len(w.c.Threads), r, background, nil, 0)
+	w.vet(len(w.c.Threads), r, background, false)
 }
 
 func (w *worker) finalStopTree(bt *structures.WritableBTreeV2) string {
 	r := w.do(len(w.c.Threads), "final-stop", true, func() string { return errStr(bt.StopIncrementalRebalancing()) })
-	w.vet(len(w.c.Threads), r, true, nil, 0)
+	w.vet(len(w.c.Threads), r, true, false)
 	return r
 }
 
@@ -183,26 +183,12 @@ func (w *worker) runBTree() {
 	}
 	fg := w.c.Threads[fgIdx]
 	var ticks atomic.Int64
-	// sequential reference
-	w.tr.phase.Store("seq")
-	bt := w.newTree()
-	w.preEnable(bt, false, &ticks)
-	ref := w.execBTreeFG(fgIdx, fg, false, &ticks, bt, nil)
-	ref.results = append(ref.results, w.finalStopTree(bt))
-	ref.final = recordsDigest(bt)
-
 	reps := w.c.Reps
 	if reps < 1 {
 		reps = 1
 	}
-	names := make([]string, 0, len(ref.results))
-	for l := 0; l < len(ref.results); l++ {
-		if len(fg.Ops) > 0 && l < len(ref.results)-1 {
-			names = append(names, fg.Ops[l%len(fg.Ops)].K)
-		} else {
-			names = append(names, "final-stop")
-		}
-	}
+	// concurrent phase first (see runHandles), sequential reference afterwards
+	all := make([]btreeRun, reps)
 	for rep := 0; rep < reps; rep++ {
 		w.tr.phase.Store("conc")
 		w.tr.resetWindows()
@@ -216,7 +202,7 @@ func (w *worker) runBTree() {
 			i, th := i, th
 			if i == fgIdx {
 				bodies = append(bodies, func() {
-					got = w.execBTreeFG(i, th, true, &ticks, bt, ref.results)
+					got = w.execBTreeFG(i, th, true, &ticks, bt)
 					fgDone.Store(true)
 				})
 				continue
@@ -231,18 +217,36 @@ func (w *worker) runBTree() {
 			w.out.Overlap = true
 			w.mu.Unlock()
 		}
-		w.compare(fgIdx, rep, names, ref.results, got.results, nil)
-		if got.final != ref.final {
-			w.mismatch("rep %d: final index content %s, sequential run %s", rep, got.final, ref.final)
-		}
 		if bt.IsIncrementalRebalancingEnabled() {
 			w.invariant("rep %d: incremental rebalancing still reported enabled after StopIncrementalRebalancing returned", rep)
 		}
+		all[rep] = got
 		w.settle(baseline, "btree")
 	}
 	w.mu.Lock()
 	w.out.Ticks = ticks.Load()
 	w.mu.Unlock()
+	// sequential reference: the same foreground ops, alone, with a background interval that is never reached
+	w.tr.phase.Store("seq")
+	bt := w.newTree()
+	w.preEnable(bt, false, &ticks)
+	ref := w.execBTreeFG(fgIdx, fg, false, &ticks, bt)
+	ref.results = append(ref.results, w.finalStopTree(bt))
+	ref.final = recordsDigest(bt)
+	names := make([]string, 0, len(ref.results))
+	for l := 0; l < len(ref.results); l++ {
+		if len(fg.Ops) > 0 && l < len(ref.results)-1 {
+			names = append(names, fg.Ops[l%len(fg.Ops)].K)
+		} else {
+			names = append(names, "final-stop")
+		}
+	}
+	for rep := 0; rep < reps; rep++ {
+		w.compare(fgIdx, rep, names, ref.results, all[rep].results, nil)
+		if all[rep].final != ref.final {
+			w.mismatch("rep %d: final index content %s, sequential run %s", rep, all[rep].final, ref.final)
+		}
+	}
 }
 
 // pollTree is a second goroutine polling progress on the same index until the foreground is done.
@@ -266,7 +270,7 @@ func (w *worker) pollTree(i int, th Thread, bt *structures.WritableBTreeV2, fgDo
 				}
 				return ""
 			})
-			w.vet(i, r, true, nil, 0)
+			w.vet(i, r, true, true)
 			pause(op.P)
 		}
 		if fgDone.Load() && round >= 0 {
@@ -287,7 +291,7 @@ type fwRun struct {
 	final   string
 }
 
-func (w *worker) execFWriter(i int, th Thread, background bool, tag string, ticks *atomic.Int64, pollers []func(fw *hdf5.FileWriter, done *atomic.Bool), ref []string) fwRun {
+func (w *worker) execFWriter(i int, th Thread, background bool, tag string, ticks *atomic.Int64, pollers []func(fw *hdf5.FileWriter, done *atomic.Bool)) fwRun {
 	var out fwRun
 	path := filepath.Join(w.job.WorkDir, fmt.Sprintf("fw-%s.h5", tag))
 	iv := time.Hour
@@ -315,7 +319,7 @@ func (w *worker) execFWriter(i int, th Thread, background bool, tag string, tick
 		}
 		return r
 	})
-	w.vet(i, setup, background, ref, 0)
+	w.vet(i, setup, background, false)
 	out.results = append(out.results, setup)
 	if fw == nil || ds == nil {
 		if fw != nil {
@@ -387,14 +391,14 @@ func (w *worker) execFWriter(i int, th Thread, background bool, tag string, tick
 				}
 				return "unknown-op"
 			})
-			w.vet(i, r, background, ref, len(out.results))
+			w.vet(i, r, background, false)
 			out.results = append(out.results, r)
 			pause(op.P)
 		}
 	}
 	// Close must stop all background work; the pollers keep querying while it runs
 	cr := w.do(i, "close", true, func() string { return errStr(fw.Close()) })
-	w.vet(i, cr, background, ref, len(out.results))
+	w.vet(i, cr, background, false)
 	out.results = append(out.results, cr)
 	done.Store(true)
 	for k := 0; k < nPoll; k++ {
@@ -420,17 +424,11 @@ func (w *worker) runFWriter() {
 	}
 	fg := w.c.Threads[fgIdx]
 	var ticks atomic.Int64
-	w.tr.phase.Store("seq")
-	ref := w.execFWriter(fgIdx, fg, false, "seq", &ticks, nil, nil)
-	names := []string{"setup"}
-	for l := 1; l < len(ref.results)-1; l++ {
-		names = append(names, fg.Ops[(l-1)%len(fg.Ops)].K)
-	}
-	names = append(names, "close")
 	reps := w.c.Reps
 	if reps < 1 {
 		reps = 1
 	}
+	all := make([]fwRun, reps)
 	for rep := 0; rep < reps; rep++ {
 		w.tr.phase.Store("conc")
 		w.tr.resetWindows()
@@ -462,7 +460,7 @@ func (w *worker) runFWriter() {
 							}
 							return ""
 						})
-						w.vet(i, r, true, nil, 0)
+						w.vet(i, r, true, true)
 						pause(op.P)
 					}
 					if done.Load() {
@@ -471,19 +469,28 @@ func (w *worker) runFWriter() {
 				}
 			})
 		}
-		got := w.execFWriter(fgIdx, fg, true, fmt.Sprintf("c%d", rep), &ticks, pollers, ref.results)
+		all[rep] = w.execFWriter(fgIdx, fg, true, fmt.Sprintf("c%d", rep), &ticks, pollers)
 		if w.tr.windowsOverlap(len(w.c.Threads)) {
 			w.mu.Lock()
 			w.out.Overlap = true
 			w.mu.Unlock()
-		}
-		w.compare(fgIdx, rep, names, ref.results, got.results, nil)
-		if got.final != ref.final {
-			w.mismatch("rep %d: file content after Close %s, sequential run %s", rep, got.final, ref.final)
 		}
 		w.settle(baseline, "fwriter")
 	}
 	w.mu.Lock()
 	w.out.Ticks = ticks.Load()
 	w.mu.Unlock()
+	w.tr.phase.Store("seq")
+	ref := w.execFWriter(fgIdx, fg, false, "seq", &ticks, nil)
+	names := []string{"setup"}
+	for l := 1; l < len(ref.results)-1; l++ {
+		names = append(names, fg.Ops[(l-1)%len(fg.Ops)].K)
+	}
+	names = append(names, "close")
+	for rep := 0; rep < reps; rep++ {
+		w.compare(fgIdx, rep, names, ref.results, all[rep].results, nil)
+		if all[rep].final != ref.final {
+			w.mismatch("rep %d: file content after Close %s, sequential run %s", rep, all[rep].final, ref.final)
+		}
+	}
 }
